@@ -5,6 +5,7 @@
 //!
 //! A reply line is `<observable>` optionally followed by `\t#FAIL:<key>:<explanation>` when the
 //! implementation-side property oracle fails for that request.
+mod c10;
 mod c11;
 mod c12;
 mod c13;
@@ -22,6 +23,7 @@ fn run_line(prop: &str, line: &str) -> String {
   }
   let args = &toks[1..];
   let r = std::panic::catch_unwind(|| match prop {
+    "C10" => c10::run(args),
     "C11" => c11::run(args),
     "C12" => c12::run(args),
     "C13" => c13::run(args),
@@ -49,6 +51,7 @@ fn main() {
       let seed: u64 = args.get(4).and_then(|s| s.parse().ok()).unwrap_or(0);
       let thorough = tier == "thorough";
       match prop {
+        "C10" => c10::gen(thorough, seed, &mut out),
         "C11" => c11::gen(thorough, seed, &mut out),
         "C12" => c12::gen(thorough, seed, &mut out),
         "C13" => c13::gen(thorough, seed, &mut out),
